@@ -992,6 +992,103 @@ def _short_of_take_limit(b, read_call, at_bb):
                     break
             if from_read and ok_lim and b.edge_dominates(sb, "otherwise", sw["otherwise"], at_bb):
                 return True
+            # `buf.len() < size` after draining `take(size - buf.len())` into that same buf: fewer bytes arrived than
+            # the limit allowed
+            if s_["rv"]["op"] in ("Lt", "Gt") and _short_of_requested_total(b, read_call, a_, c_) and b.edge_dominates(sb, "otherwise", sw["otherwise"], at_bb):
+                return True
+    return False
+
+
+def _drained_nothing_with_room(b, read_call, at_bb):
+    """The flag write at `at_bb` is reached only when the bounded drain returned 0 bytes although its limit was not 0
+    (the Take is created only behind a `limit != 0` edge): nothing could be read with room left, the source has ended."""
+    # limit roots, as in _short_of_take_limit
+    roots = set()
+    take_bb = None
+    for tb, tt in b.calls():
+        if (fn_of(tt) or {}).get("def") == "std::io::Read::take" and len(tt["args"]) == 2:
+            take_bb = tb
+            cur = tt["args"][1]
+            for _ in range(6):
+                if not is_place(cur) or cur["p"]["pr"]:
+                    break
+                roots.add(cur["p"]["l"])
+                ds = b.whole_defs(cur["p"]["l"])
+                if len(ds) == 1 and ds[0][2] == "assign" and ds[0][3]["rv"]["k"] in ("use", "cast") and is_place(ds[0][3]["rv"]["op"]):
+                    cur = ds[0][3]["rv"]["op"]
+                else:
+                    break
+    if take_bb is None or not roots:
+        return False
+    nonzero = False
+    zero_count = False
+    for sb in sorted(b.reach()):
+        blk = b.blocks[sb]
+        sw = blk["term"]
+        if sw["k"] != "switch" or not is_place(sw["discr"]) or sw["discr"]["p"]["pr"]:
+            continue
+        dl = sw["discr"]["p"]["l"]
+        for s_ in blk["stmts"]:
+            if not (s_["k"] == "assign" and not s_["p"]["pr"] and s_["p"]["l"] == dl and s_["rv"]["k"] == "binop" and s_["rv"]["op"] in ("Eq", "Ne", "Gt") and const_value(s_["rv"]["b"]) == 0):
+                continue
+            a_ = s_["rv"]["a"]
+            zero_t = [x for v, x in sw["targets"] if v == 0]
+            # edge on which the compared value is 0 / is not 0
+            if s_["rv"]["op"] == "Eq":
+                e_zero, e_nonzero = (sb, sw["otherwise"]), ((sb, zero_t[0]) if zero_t else None)
+            else:
+                e_zero, e_nonzero = ((sb, zero_t[0]) if zero_t else None), (sb, sw["otherwise"])
+            ar = a_
+            for _ in range(4):
+                if is_place(ar) and not ar["p"]["pr"] and ar["p"]["l"] in roots:
+                    break
+                ds = b.whole_defs(ar["p"]["l"]) if is_place(ar) and not ar["p"]["pr"] else []
+                if len(ds) == 1 and ds[0][2] == "assign" and ds[0][3]["rv"]["k"] in ("use", "cast") and is_place(ds[0][3]["rv"]["op"]):
+                    ar = ds[0][3]["rv"]["op"]
+                else:
+                    break
+            if is_place(ar) and not ar["p"]["pr"] and ar["p"]["l"] in roots and e_nonzero and take_bb not in b.reachable_from(0, removed_edges=[e_nonzero]):
+                nonzero = True
+            at = trace(b, a_, passthrough_extra=("std::ops::Try::branch",))
+            if at.origin and at.origin[0] == "call" and at.origin[2] is read_call and any(st[0] == "downcast" and st[1] in ("Continue", "Ok") for st in at.steps) and e_zero and at_bb not in b.reachable_from(0, removed_edges=[e_zero]):
+                zero_count = True
+    return nonzero and zero_count
+
+
+def _short_of_requested_total(b, read_call, len_op, total_op):
+    """`len_op` is the length of the very Vec the bounded read appended to, `total_op` the value S from which the
+    Take's limit was computed as `S - len(that Vec)` (saturating/checked/plain) before the read."""
+    lt = trace(b, len_op)
+    if not (lt.origin and lt.origin[0] == "call" and (fn_of(lt.origin[2]) or {}).get("name") == "len" and "Vec" in (fn_of(lt.origin[2]) or {}).get("def", "") and lt.origin[2]["args"]):
+        return False
+    views = ("std::io::Cursor::<T>::get_mut", "std::io::Cursor::<T>::get_ref")
+
+    def vec_field(op):
+        t_ = trace(b, op, passthrough_extra=views)
+        fs = [x[1] for x in t_.steps if x[0] == "field"]
+        return fs[0] if fs and t_.origin and t_.origin[0] == "arg" and t_.origin[1] == 1 else None
+
+    vf = vec_field(lt.origin[2]["args"][0])
+    if vf is None or len(read_call["args"]) < 2 or vec_field(read_call["args"][1]) != vf:
+        return False
+    tt = trace(b, total_op)
+    if not (tt.origin and tt.origin[0] == "arg" and all(x[0] == "use" for x in tt.steps)):
+        return False
+    # the Take's limit
+    for tb, tk in b.calls():
+        if (fn_of(tk) or {}).get("def") != "std::io::Read::take" or len(tk["args"]) != 2:
+            continue
+        lim = trace(b, tk["args"][1], passthrough_extra=("cast", "std::convert::TryFrom::try_from", "std::convert::From::from", "std::convert::Into::into", "std::result::Result::<T, E>::unwrap", "std::result::Result::<T, E>::unwrap_or"))
+        if lim.origin and lim.origin[0] == "call" and (fn_of(lim.origin[2]) or {}).get("name") in ("saturating_sub", "checked_sub", "wrapping_sub") and len(lim.origin[2]["args"]) == 2:
+            x, y = lim.origin[2]["args"]
+        elif lim.origin and lim.origin[0] == "rvalue" and lim.origin[1]["rv"]["k"] == "binop" and lim.origin[1]["rv"]["op"].startswith("Sub"):
+            x, y = lim.origin[1]["rv"]["a"], lim.origin[1]["rv"]["b"]
+        else:
+            continue
+        tx = trace(b, x)
+        ty = trace(b, y)
+        if tx.origin == tt.origin and all(q[0] == "use" for q in tx.steps) and ty.origin and ty.origin[0] == "call" and (fn_of(ty.origin[2]) or {}).get("name") == "len" and ty.origin[2]["args"] and vec_field(ty.origin[2]["args"][0]) == vf:
+            return True
     return False
 
 
@@ -1108,6 +1205,108 @@ def _is_source_read_count_ok(lib, b, op, src_fields, depth):
     return _is_source_read_count(lib, b, op, src_fields, depth)
 
 
+def _is_take_limit(b, op, ok_edges):
+    """The operand is `take.limit()` of a Take that one of the source reads in `ok_edges` went through."""
+    tr = trace(b, op)
+    if not (tr.origin and tr.origin[0] == "call" and (fn_of(tr.origin[2]) or {}).get("name") == "limit" and "Take" in (fn_of(tr.origin[2]) or {}).get("def", "")):
+        return False
+    return any(tk_ for _, _, _, tk_ in ok_edges)
+
+
+def _flag_on_error_is_dead(lib, b, read_call):
+    """(ok, why): body b returns the Result of `read_call` itself (as it is, through `?`, or with only its Ok payload
+    mapped), and every caller up the chain only propagates a failure."""
+    passthrough = ("std::result::Result::<T, E>::map", "std::ops::Try::branch", "std::ops::FromResidual::from_residual", "std::result::Result::<T, E>::map_err")
+    rets = 0
+    for db, _, kind, payload in b.whole_defs(0):
+        rets += 1
+        if kind == "assign" and payload["rv"]["k"] == "aggregate" and payload["rv"].get("variant") == "Ok":
+            # an Ok(..) return: must lie behind the read's success edge or before the read
+            import r_bin
+
+            sws = r_bin.result_switches(b, read_call["dest"]["l"])
+            cbb = [bb_ for bb_, t_ in b.calls() if t_ is read_call][0]
+            if cbb in b.reachable_from(0) and db in b.reachable_from(cbb) and not any(oks and all(b.dominates(o, db) for o in oks[:1]) for _, _, oks in sws):
+                return False, "an `Ok` return is reachable after a failed read"
+            continue
+        op = {"k": "copy", "p": {"l": 0, "pr": []}}
+        if kind == "call":
+            tr = trace(b, payload["args"][0], passthrough_extra=passthrough) if payload["args"] else None
+            f_ = fn_of(payload) or {}
+            if f_.get("def") in passthrough and tr is not None and tr.origin and tr.origin[0] == "call" and tr.origin[2] is read_call:
+                continue
+            return False, f"the return value comes from `{f_.get('def')}`, not from the failed read"
+        if kind == "assign" and payload["rv"]["k"] == "use":
+            tr = trace(b, payload["rv"]["op"], passthrough_extra=passthrough)
+            if tr.origin and tr.origin[0] == "call" and tr.origin[2] is read_call:
+                continue
+        return False, "the return value does not derive from the read's own result"
+    if not rets:
+        return False, "no return value found"
+    ok, why = _error_only_propagated(lib, b.id)
+    return ok, why
+
+
+def _uses_of_local(b, l):
+    """[(block, 'stmt'|'term', object)] reading local l as a whole (moves/copies of the bare local)."""
+    out = []
+
+    def reads(x):
+        if isinstance(x, dict):
+            if x.get("k") in ("copy", "move") and isinstance(x.get("p"), dict) and x["p"].get("l") == l and not x["p"].get("pr"):
+                return True
+            return any(reads(v) for k_, v in x.items() if k_ != "p" or True)
+        if isinstance(x, list):
+            return any(reads(v) for v in x)
+        return False
+
+    for bi in sorted(b.reach()):
+        for s_ in b.blocks[bi]["stmts"]:
+            if s_["k"] == "assign" and reads(s_["rv"]):
+                out.append((bi, "stmt", s_))
+        t = b.blocks[bi]["term"]
+        if reads({k_: v for k_, v in t.items() if k_ in ("args", "discr", "cond")}):
+            out.append((bi, "term", t))
+    return out
+
+
+def _error_only_propagated(lib, fid, depth=0, seen=None):
+    """Every same-crate caller of function `fid` hands its Result on untouched as far as failure goes: the call's
+    value is consumed by `?` alone or returned as it is, and the same holds for the callers of that caller. (So an
+    error `fid` returns always ends the whole operation; what `fid` did to its object before returning it is never
+    looked at again.) Returns (ok, detail)."""
+    seen = seen or set()
+    if fid in seen or depth > 5:
+        return True, ""
+    seen.add(fid)
+    for cb in lib.bodies:
+        for bb, t in cb.calls():
+            f = fn_of(t) or {}
+            if (f.get("resolved") or f.get("def")) != fid:
+                continue
+            if t["dest"]["pr"]:
+                return False, f"`{cb.name}` stores the result in a place"
+            uses = _uses_of_local(cb, t["dest"]["l"])
+            ok = len(uses) == 1 or (t["dest"]["l"] == 0 and not uses)
+            if ok and uses:
+                ub, kind, obj = uses[0]
+                if kind == "term" and obj["k"] == "call" and (fn_of(obj) or {}).get("def") == "std::ops::Try::branch":
+                    pass
+                elif kind == "stmt" and not obj["p"]["pr"] and obj["p"]["l"] == 0 and obj["rv"]["k"] == "use":
+                    pass
+                else:
+                    ok = False
+            if not ok:
+                return False, f"`{cb.name}` does something else with the result than `?` or returning it (at line {t.get('line')})"
+            root = cb
+            while root.raw["def_kind"] == "Closure" and root.raw.get("parent") in lib.by_id:
+                return False, f"`{cb.name}` is a closure: who sees its result is not followed"
+            sub = _error_only_propagated(lib, cb.id, depth + 1, seen)
+            if not sub[0]:
+                return sub
+    return True, ""
+
+
 @rule("R09.6", 3, "the capture reader marks end-of-input only on evidence of EOF from a successful source read (never on a short read or an error edge)", ["C09", "C12", "C03", "C02", "C10", "C14", "C01"])
 def r09_6(ctx):
     lib = ctx.lib
@@ -1146,7 +1345,14 @@ def r09_6(ctx):
 
                         sws = r_bin.result_switches(b, ct["dest"]["l"])
                         dom_ok = any(all(b.dominates(o, bi) for o in [x for x in oks][:1]) and oks for sb, errs, oks in sws)
-                        if not dom_ok:
+                        if not dom_ok and b.dominates(cb, bi) and cb != bi:
+                            # the flag is also written when the read failed: harmless exactly when that failure is
+                            # this function's own return value and every caller only passes it on
+                            dom_ok, why_e = _flag_on_error_is_dead(lib, b, ct)
+                            if not dom_ok:
+                                why = "set to true on a path that includes the read's error edge (a failing source would look exhausted): " + why_e
+                                continue
+                        elif not dom_ok:
                             why = "set to true on a path that includes the read's error edge (a failing source would look exhausted)"
                             continue
                         if is_take:
@@ -1163,6 +1369,8 @@ def r09_6(ctx):
                             if not lim:
                                 lim = _short_of_take_limit(b, ct, bi)
                             if not lim:
+                                lim = _drained_nothing_with_room(b, ct, bi)
+                            if not lim:
                                 why = "a bounded (Take) read ended: without checking the remaining limit this may be the cap, not EOF"
                                 continue
                         good = True
@@ -1171,6 +1379,19 @@ def r09_6(ctx):
                     # (`n == 0`, and for an unsigned count the same test spelt `n < 1` or `n <= 0`)
                     good = _is_source_read_count(lib, b, rv["a"], src_fields)
                     ctx.ob(key + ":zero-length-read", good, site(b, line=s["line"]), "EOF iff the source's read returned Ok(0)" if good else "EOF derived from something other than the source read's Ok(0)")
+                elif rv["k"] == "binop" and rv["op"] in ("Gt", "Ne") and const_value(rv["b"]) == 0 and _is_take_limit(b, rv["a"], ok_edges):
+                    # `eof = take.limit() > 0` right after `take.read_to_end(..)`: the cap was not used up
+                    drains = [(cb_, ct_) for cb_, ct_, nm_, tk_ in ok_edges if nm_ == "read_to_end" and tk_ and b.dominates(cb_, bi) and cb_ != bi]
+                    good, why_v = False, "no bounded read_to_end of the source before this"
+                    for cb_, ct_ in drains:
+                        import r_bin
+
+                        sws = r_bin.result_switches(b, ct_["dest"]["l"])
+                        if any(oks and all(b.dominates(o, bi) for o in oks[:1]) for _, _, oks in sws):
+                            good = True
+                        else:
+                            good, why_v = _flag_on_error_is_dead(lib, b, ct_)
+                    ctx.ob(key + ":true-after-read_to_end", good, site(b, line=s["line"]), "EOF iff the bounded read_to_end left part of its limit unused" + ("" if good else ": " + why_v))
                 elif rv["k"] == "use" and is_place(rv["op"]) and _is_empty_of_read_prefix(b, rv["op"], ok_edges):
                     ctx.ob(key + ":zero-length-read", True, site(b, line=s["line"]), "EOF iff the part of the buffer the source's read filled is empty (the read returned Ok(0))")
                 else:
